@@ -126,9 +126,113 @@ def apply_history(history):
                 raise CaseInvalid("definition {} parsed to {}".format(ev, got))
 
 
-def number(n, d):
+# ---- operand styles: HOW the same tree is presented to the library (the unit model does not depend on it) -------------
+#  values : "same" (every leaf 4.0 +/- 0.5, equal central values in distinct objects) | "varied" | "special" (0, 1, -1, 2, 10,
+#           100) | "tiny" (x 1e-12) | "huge" (1e9 + 1)
+#  share  : leaves with the same written unit are ONE object (x*x, x+x, x/x on the same quantity)
+#  names  : None | "same" (every leaf is called "x") | "distinct"
+#  read   : every constructed quantity is read (.unit, str(), .value, .error) BEFORE it is used as an operand
+#  entry  : "scalar" (q.Measurement) | "element" (leaf = element [0] of a q.MeasurementArray)
+#  cst    : "plain" | "bool" | "numpy" | "fraction"  -- number type of constant operands and constant powers
+_STYLE = {}
+_SHARED = {}
+_COUNTER = [0]
+VALUE_SETS = {"varied": [4.0, 2.5, 9.0, 0.75, 16.0, 1.25], "special": [0.0, 1.0, -1.0, 2.0, 10.0, 100.0],
+              "tiny": [4e-12, 2.5e-12, 9e-12], "huge": [1e9 + 1, 1e9 + 2, 3e9]}
+
+
+class styled:
+    def __init__(self, style):
+        self.style = style or {}
+
+    def __enter__(self):
+        global _STYLE
+        self.old = _STYLE
+        _STYLE = self.style
+        begin_build()
+
+    def __exit__(self, *a):
+        global _STYLE
+        _STYLE = self.old
+
+
+def begin_build():
+    _SHARED.clear()
+    _COUNTER[0] = 0
+
+
+def rand_style(rng, p_plain=0.5):
+    if rng.random() < p_plain:
+        return None
+    st = {}
+    if rng.random() < 0.5:
+        st["values"] = rng.choice(["varied", "special", "tiny", "huge", "same"])
+    if rng.random() < 0.4:
+        st["share"] = True
+    if rng.random() < 0.3:
+        st["names"] = rng.choice(["same", "distinct"])
+    if rng.random() < 0.4:
+        st["read"] = True
+    if rng.random() < 0.25:
+        st["entry"] = "element"
+    if rng.random() < 0.35:
+        st["cst"] = rng.choice(["bool", "numpy", "fraction"])
+    return st or None
+
+
+def number(n, d, power=False):
     f = Fraction(n, d)
+    kind = _STYLE.get("cst", "plain")
+    i = _COUNTER[0]
+    _COUNTER[0] += 1
+    if kind == "bool" and f in (0, 1):
+        return bool(f)
+    if kind == "fraction":
+        return f
+    if kind == "numpy":
+        import numpy as np
+        if f.denominator == 1:
+            return [np.int64, np.int32, np.float64, np.int16][i % 4](int(f))
+        # a power is printed through Fraction(power): only float64 is a Python float (see the note on float32 powers)
+        return np.float64(float(f)) if power else [np.float64, np.float32][i % 2](float(f))
     return int(f) if f.denominator == 1 else float(f)
+
+
+def read_before_use(x):
+    """what a user may do with an intermediate result before computing on with it"""
+    if not _STYLE.get("read") or not hasattr(x, "_unit"):
+        return
+    _ = x.unit
+    try:
+        _ = str(x), x.value, x.error
+    except Exception:  # noqa -- values may be outside an operator's domain (sqrt of a negative number ...): not our concern
+        pass
+
+
+def make_leaf(items):
+    q = _q()
+    key = json.dumps(items)
+    if _STYLE.get("share") and key in _SHARED:
+        return _SHARED[key]
+    i = _COUNTER[0]
+    _COUNTER[0] += 1
+    vals = VALUE_SETS.get(_STYLE.get("values"), [4.0])
+    v = vals[i % len(vals)]
+    err = abs(v) / 8 if v else 0.5
+    kw = {}
+    if _STYLE.get("names") == "same":
+        kw["name"] = "x"
+    elif _STYLE.get("names") == "distinct":
+        kw["name"] = "x{}".format(i)
+    if _STYLE.get("entry") == "element":
+        arr = q.MeasurementArray([v, v + 1.0], err, unit=ustr(items), **kw)
+        m = arr[0]
+    else:
+        m = q.Measurement(v, err, unit=ustr(items), **kw)
+    if to_items(m._unit) != [list(x) for x in items]:
+        raise CaseInvalid("leaf {} parsed to {}".format(items, to_items(m._unit)))
+    _SHARED[key] = m
+    return m
 
 
 def build(t, nodes):
@@ -136,10 +240,9 @@ def build(t, nodes):
     q = _q()
     k = t[0]
     if k == "leaf":
-        m = q.Measurement(4.0, 0.5, unit=ustr(t[1]))
-        if to_items(m._unit) != [list(x) for x in t[1]]:
-            raise CaseInvalid("leaf {} parsed to {}".format(t[1], to_items(m._unit)))
+        m = make_leaf(t[1])
         nodes.append(m)
+        read_before_use(m)
         return m
     if k == "cst":
         return number(t[1], t[2])
@@ -150,8 +253,10 @@ def build(t, nodes):
         op = t[1]
         r = -a if op == "neg" else getattr(q, {"ln": "log"}.get(op, op))(a)
         nodes.append(r)
+        read_before_use(r)
         return r
-    a, b = build(t[2], nodes), build(t[3], nodes)
+    a = build(t[2], nodes)
+    b = number(t[3][1], t[3][2], power=True) if (t[1] == "pow" and t[3][0] == "cst") else build(t[3], nodes)
     if not hasattr(a, "_unit") and not hasattr(b, "_unit"):
         raise CaseInvalid("operator on two plain numbers")
     op = t[1]
@@ -170,13 +275,14 @@ def build(t, nodes):
     else:
         raise CaseInvalid("operator " + op)
     nodes.append(r)
+    read_before_use(r)
     return r
 
 
 MISMATCH_TEXT = "mismatching units"
 
 
-def run_tree(history, tree, frac=False, recalc_history=None):
+def run_tree(history, tree, frac=False, recalc_history=None, style=None):
     """returns dict(unit=items, warned=bool, text=str, exc=None|'rec', exact=bool, nodes=[items...])"""
     q = _q()
     reset_state()
@@ -188,7 +294,8 @@ def run_tree(history, tree, frac=False, recalc_history=None):
         with warnings.catch_warnings(record=True) as w:
             warnings.simplefilter("always")
             try:
-                r = build(tree, nodes)
+                with styled(style):
+                    r = build(tree, nodes)
                 if recalc_history is not None:
                     if not hasattr(r, "recalculate"):
                         raise CaseInvalid("recalculate on a measurement")
@@ -214,13 +321,14 @@ def run_tree(history, tree, frac=False, recalc_history=None):
         reset_state()
 
 
-def observe_use(tree, events_so_far, frac=False):
+def observe_use(tree, events_so_far, frac=False, style=None):
     """build one tree under whatever definitions are in force NOW (no reset) and observe it"""
     nodes = []
     with warnings.catch_warnings(record=True) as w:
         warnings.simplefilter("always")
         try:
-            r = build(tree, nodes)
+            with styled(style):
+                r = build(tree, nodes)
             text = r.unit if hasattr(r, "_unit") else ""
         except RecursionError:
             return {"exc": "rec", "exact": True}
@@ -237,7 +345,7 @@ def observe_use(tree, events_so_far, frac=False):
             "exact": all(small_dyadic(it) for it in node_items), "nodes": node_items, "defs_items": defs_items}
 
 
-def run_session(steps):
+def run_session(steps, style=None):
     """steps: ["define", name, items] | ["clear"] | ["use", tree], executed in order in ONE interpreter state (no reset
     in between: what an earlier use left behind in the library is still there at a later one).
     The session starts from a FRESH LIBRARY STATE (core.fresh_impl(): the modules are imported again), without any
@@ -249,7 +357,7 @@ def run_session(steps):
     try:
         for st in steps:
             if st[0] == "use":
-                out.append(observe_use(st[1], events))
+                out.append(observe_use(st[1], events, style=style))
             else:
                 apply_history([st])
                 events.append(st)
@@ -269,11 +377,11 @@ def session_events_before(steps):
     return out
 
 
-def oracle_session(steps):
+def oracle_session(steps, style=None):
     """every use of a session must agree with dimensional analysis under the definitions in force at that moment
     (latest definition of each name since the latest clear), whatever was defined, used or redefined before"""
     try:
-        obs = run_session(steps)
+        obs = run_session(steps, style)
     except CaseInvalid:
         return None
     uses = [st for st in steps if st[0] == "use"]
@@ -289,10 +397,10 @@ def oracle_session(steps):
     return None
 
 
-def shrink_session(steps):
+def shrink_session(steps, style=None):
     """delta-debug the steps, then shrink the trees of the remaining uses"""
     def fails(s):
-        return oracle_session(s) is not None
+        return oracle_session(s, style) is not None
     steps = core.shrink_list(steps, fails)
     for i, st in enumerate(steps):
         if st[0] == "use":
@@ -999,7 +1107,7 @@ def o_dim(t, defs, root=True):
     raise OutOfDomain("operator outside the grammar")
 
 
-def oracle_check(history, tree, frac=False):
+def oracle_check(history, tree, frac=False, style=None):
     """None when the implementation agrees with dimensional analysis on this case (or the case is outside the
     property's domain); otherwise a description of the contradiction"""
     defs = defs_of(history)
@@ -1008,7 +1116,7 @@ def oracle_check(history, tree, frac=False):
     except (OutOfDomain, Cyclic):
         return None
     try:
-        obs = run_tree(history, tree, frac)
+        obs = run_tree(history, tree, frac, style=style)
     except CaseInvalid:
         return None
     return judge(obs, exp, defs, tree, frac)
